@@ -164,6 +164,21 @@ func zooMakers() []zooMaker {
 	out = append(out, zooMerged("first-last-same-middle-differs", false, 0, nil, sf("a", "alpha"), sf("b", "beta"), sf("c", "alpha")))
 	out = append(out, zooMerged("first-last-same-middle-subset", false, 0, nil, sf("a", "alpha", "beta"), sf("b", "beta"), sf("c", "alpha", "beta")))
 	out = append(out, zooMerged("middle-same-outer-differ", false, 0, nil, sf("a", "alpha"), sf("b", "beta"), sf("c", "beta"), sf("d", "gamma")))
+	// 5c. norms with unusual float32 bit patterns (varints of 5 bytes; bit 30 set; denormals)
+	for _, nm := range []int{1, 3, 4, 5, 8} {
+		nm := nm
+		withNorms := func(mk zooMaker) zooMaker {
+			inner := mk.make
+			mk.name = fmt.Sprintf("%s-norms%d", mk.name, nm)
+			mk.make = func() (sg []segment.Segment, ls []*model.LSeg, dr [][]uint32, merged bool, err error) {
+				model.WithNormMode(nm, func() { sg, ls, dr, merged, err = inner() })
+				return
+			}
+			return mk
+		}
+		out = append(out, withNorms(zooBuilt("mix", false, mix("n", 2, 1, 4, 11, 3, 2, 2))))
+		out = append(out, withNorms(zooMerged("mix+partner", false, 0, [][]uint32{{1}, nil}, mix("n", 2, 1, 4, 11, 3), partner)))
+	}
 	// 6. wide field tables
 	wide := func(nf int, long bool) func() []model.Doc {
 		return func() []model.Doc {
